@@ -679,6 +679,18 @@ struct Extractor
             if (auto* fd = calleeOf(e))
             {
                 o.str("callee", patName(fd));
+                // integral template arguments of the callee (e.g. ipow<2>)
+                if (auto* ta = fd->getTemplateSpecializationArgs())
+                {
+                    std::vector<std::string> tv;
+                    for (auto const& a : ta->asArray())
+                    {
+                        if (a.getKind() == TemplateArgument::Integral)
+                            tv.push_back(llvm::toString(a.getAsIntegral(), 10));
+                    }
+                    if (!tv.empty())
+                        o.raw("targs", jstrlist(tv));
+                }
             }
             if (auto* oc = dyn_cast<CXXOperatorCallExpr>(e))
                 o.str("oop", getOperatorSpelling(oc->getOperator()));
